@@ -156,6 +156,10 @@ G_Term(cls, m, n, b, seed, depth, mode) ==
                               IN Op_Dense(T_Make(A.shape, LAMBDA idx : T_At(A, idx) * (1 + 2 * (idx[r - 1] % 4)) * (1 + 2 * (idx[r] % 4))))
        \* upper-orientation Cholesky operators nested in structures whose Cholesky is assembled from the children's factors
        [] cls = "KronCholU" -> Op_Kron(<<G_Term("CholU", 2, 2, b1, seed + 3, 0, 1), G_Term("Dense", n \div 2, n \div 2, b1, seed + 5, 0, 1)>>)
+       \* A = R^T R with R an upper-triangular Kronecker product of upper-triangular factors (what K.cholesky(upper=True) returns for a Kronecker K)
+       [] cls = "CholKronTriU" ->
+            LET m1 == G_Factor(n, seed) T1 == G_LowerTri(m1, b1, seed + 3) T2 == G_LowerTri(n \div m1, b1, seed + 5)
+            IN Op_Chol(Op_KronTri(<<Op_TriT(T_Transpose(T1), 1), Op_TriT(T_Transpose(T2), 1)>>, 1), 1)
        [] cls = "BlockDiagCholU" -> Op_BlockDiag(G_Term("CholU", n \div 2, n \div 2, b1 \o <<2>>, seed + 3, 0, 1), -3)
        \* a batch of mixed definiteness: member 0 is PSD but singular (rank 2: its Cholesky needs jitter), member 1 is positive definite.
        \* The factor of the definite member must not be perturbed because of the other one (batch shape is always (2))
@@ -230,7 +234,12 @@ G_Term(cls, m, n, b, seed, depth, mode) ==
                ELSE LET a == 1 + (seed % (tot - 1))
                         s1 == [full EXCEPT ![p] = a] s2 == [full EXCEPT ![p] = tot - a]
                         mk(s, sd) == G_Child(s[r - 1], s[r], SubSeq(s, 1, r - 2), sd, d1, 0)
-                    IN Op_Cat(<<mk(s1, seed + 3), mk(s2, seed + 5)>>, p - 1 - r)
+                    \* three pieces of unequal sizes and offsets where the axis is long enough (the offset of a piece then
+                    \* differs from its size, as it does in general)
+                    IN IF tot >= 3 /\ seed % 2 = 0
+                       THEN LET t1 == [full EXCEPT ![p] = 1] t2 == [full EXCEPT ![p] = tot - 2]
+                            IN Op_Cat(<<mk(t1, seed + 3), mk(t2, seed + 5), mk(t1, seed + 7)>>, p - 1 - r)
+                       ELSE Op_Cat(<<mk(s1, seed + 3), mk(s2, seed + 5)>>, p - 1 - r)
        [] cls = "Interp" ->
             LET km == 2 + (seed % 2) kn == IF mode = 1 \/ m = n THEN km ELSE 3
                 p == 1 + (seed % 2)
@@ -265,11 +274,11 @@ G_AllClasses == <<"Dense", "User", "Diag", "ConstDiag", "Identity", "Zero", "Toe
                   "LowRankRoot", "Kron", "Kron3", "KronTri", "KronDiag", "KronAddedDiag", "SumKron", "AddedDiag",
                   "LRRAddedDiag", "Sum", "Sum3", "PsdSum", "Matmul", "Mul", "ConstMul", "BlockDiag", "BlockInter",
                   "SumBatch", "BatchRepeat", "Cat", "Interp", "Masked", "Perm", "TransPerm", "Kernel", "SumInterp", "MatmulTri", "InterpRootSameIdx">>
-G_SquareOnly == {"LowRankHuge", "ConstMulI", "BlockDiagConstMulI", "InterpRootSameIdx", "MatmulTri", "LRRAddedDiagI", "AddedDiagI", "SumI", "Diag", "ConstDiag", "Identity", "Toeplitz", "Tri", "Chol", "CholU", "Root", "LowRankRoot", "Kron3", "KronTri",
+G_SquareOnly == {"CholKronTriU", "LowRankHuge", "ConstMulI", "BlockDiagConstMulI", "InterpRootSameIdx", "MatmulTri", "LRRAddedDiagI", "AddedDiagI", "SumI", "Diag", "ConstDiag", "Identity", "Toeplitz", "Tri", "Chol", "CholU", "Root", "LowRankRoot", "Kron3", "KronTri",
                  "KronDiag", "KronAddedDiag", "SumKron", "AddedDiag", "LRRAddedDiag", "PsdSum", "Mul", "BlockDiag",
                  "BlockInter", "Perm", "TransPerm"}
-G_LeafClasses == {"LowRankHuge", "ConstMulI", "BlockDiagConstMulI", "InterpRootSameIdx", "MixedDef", "AddedDiagRootConst", "AddedDiagBig", "DenseBig", "KronCholU", "BlockDiagCholU", "SumInterp", "MatmulTri", "LRRAddedDiagI", "AddedDiagI", "SumI", "Dense", "User", "Diag", "ConstDiag", "Identity", "Zero", "Toeplitz", "Chol", "CholU", "SumZ", "LowRankRoot", "KronTri",
+G_LeafClasses == {"CholKronTriU", "LowRankHuge", "ConstMulI", "BlockDiagConstMulI", "InterpRootSameIdx", "MixedDef", "AddedDiagRootConst", "AddedDiagBig", "DenseBig", "KronCholU", "BlockDiagCholU", "SumInterp", "MatmulTri", "LRRAddedDiagI", "AddedDiagI", "SumI", "Dense", "User", "Diag", "ConstDiag", "Identity", "Zero", "Toeplitz", "Chol", "CholU", "SumZ", "LowRankRoot", "KronTri",
                   "KronDiag", "SumKron", "LRRAddedDiag", "Perm", "TransPerm", "Kernel"}
 \* classes that only exist for PSD arguments
-G_PsdOnly == {"Chol", "CholU", "PsdSum", "Mul"}
+G_PsdOnly == {"CholKronTriU", "Chol", "CholU", "PsdSum", "Mul"}
 =============================================================================
